@@ -1495,6 +1495,9 @@ static JanetSignal janet_continue_no_check(JanetFiber *fiber, Janet in, Janet *o
         if (janet_vm.root_fiber == NULL) janet_vm.root_fiber = fiber;
         JanetFiber *child = fiber->child;
         uint32_t instr = (janet_stack_frame(fiber->data + fiber->frame)->pc)[0];
+        /* This fiber is running on behalf of its child: it must not be resumed
+         * re-entrantly by a descendant while the child chain is continued. */
+        janet_fiber_set_status(fiber, JANET_STATUS_ALIVE);
         janet_vm.stackn++;
         JanetSignal sig = janet_continue(child, in, &in);
         janet_vm.stackn--;
